@@ -523,6 +523,9 @@ type C15Case struct {
 	C01Case
 	ProfileB string `json:"profileB"`
 	ProfileC string `json:"profileC"`
+	// a DIFFERENT profile the process validates with first: the text of the first spelling but for what follows a " #" inside one
+	// quoted scalar (so it lists another value): what a profile means is not settled by a neighbour the process saw before
+	ProfilePre string `json:"profilePre,omitempty"`
 }
 
 func genC15(g *G, n int, out io.Writer) {
@@ -593,6 +596,16 @@ func genC15(g *G, n int, out io.Writer) {
 				}
 			}
 		}
+		hashTwin := i%9 == 4 && i%10 != 3 && i%10 != 7
+		if hashTwin {
+			// a listed value with " #" in it (a ticket label, a channel name): inside a quoted scalar that is text, not a comment
+			hp := PP("hp", false)
+			base.Atoms = append(base.Atoms, Atom{Kind: "in", Path: hp, Vals: []string{"k #1", "plain"}})
+			base.Validations = append(base.Validations, Validation{Name: "hash", Class: NS + "T", Rule: Rule{Atom: ip(len(base.Atoms) - 1)}})
+			for k := range base.Graph {
+				setProp(&base.Graph[k], *hp.P, []Val{VS([]string{"k #1", "k #2", "plain"}[k%3])})
+			}
+		}
 		spec := ProfileSpec{Name: fmt.Sprintf("c15_%d", i), Atoms: base.Atoms, Paths: base.Paths, Validations: base.Validations}
 		if g.coin(0.3) {
 			// some cardinality atoms are spelled as embedded Rego (the same spelling in all three texts): operands of and/or
@@ -622,7 +635,11 @@ func genC15(g *G, n int, out io.Writer) {
 		var wc strings.Builder
 		(&ystyle{g: g, indent: 2, flowP: 0.3, comment: g.coin(0.5)}).block(&wc, profileTree(g, spec, true, []string{"q_1", "Other-ns", "ex"}), 0)
 		base.Data = base.Graph.RenderFlat()
-		enc.Encode(C15Case{C01Case: base, ProfileB: "#%Validation Profile 1.0\n" + wb.String(), ProfileC: wc.String()})
+		cc := C15Case{C01Case: base, ProfileB: "#%Validation Profile 1.0\n" + wb.String(), ProfileC: wc.String()}
+		if hashTwin && strings.Contains(base.Profile, "k #1") {
+			cc.ProfilePre = strings.ReplaceAll(base.Profile, "k #1", "k #2")
+		}
+		enc.Encode(cc)
 	}
 	customSteps = false
 }
